@@ -33,4 +33,30 @@ META = {
                 'implementation output of every generated case.',
         'note': APPLY_NOTE,
     },
+    'C20': {
+        'engine': 'rqharness fuzzpair + rqmodel',
+        'design_ref': 'DESIGN.md section 5 C20',
+        'technique': 'Lean 4 proof (fuzz levels for F are a prefix of those for F\'; first success wins) + differential correspondence on pairs of runs',
+        'text': 'Theorems C20_phase1 / C20_applyModify / C20_file: for all file patches, files, directions and F <= F\', an application '
+                'that succeeds completely with limit F gives the identical file and hunk reports with limit F\'. Evaluated on pairs '
+                'of real applications; model compared with the implementation on both runs.',
+        'note': APPLY_NOTE + ' Series level (whole push) is covered as far as a push is a sequence of file-patch applications with one limit.',
+    },
+    'C02': {
+        'engine': 'rqharness apply + rqmodel',
+        'design_ref': 'DESIGN.md section 5 C02',
+        'technique': 'Lean 4 proof (interleaved scan is key-sorted => find? = brute-force nearest admissible match; fuzz-level monotonicity) + differential correspondence',
+        'text': 'Theorems C02_place (search = brute-force specification for every view, file and first guess), C02_hunk / C02_applyModify '
+                '(lowest acceptable fuzz level, anchoring, frozen lines, failed-for-no-match means no admissible match at any permitted level), '
+                'C02_fuzz0. The relation reportsOK is evaluated on the reports of the real code for every generated case.',
+        'note': APPLY_NOTE,
+    },
+    'C04': {
+        'engine': 'rqharness apply + rqmodel',
+        'design_ref': 'DESIGN.md section 5 C04',
+        'technique': 'Lean 4 proof (inverse edits undo applySpec; recorded previous deleted/permissions) + differential correspondence with LIFO rollback',
+        'text': 'Theorems C04_file and C04_stack: rollback after any application (complete or partial, both directions, any fuzz, all kinds, '
+                'mode changes) returns exactly the previous file and never aborts; stacks undone LIFO. Checked on the real apply/rollback of stacks of 1-4 patches.',
+        'note': APPLY_NOTE + ' Rename-level undo is modelled at driver level.',
+    },
 }
